@@ -151,3 +151,13 @@ package hashset
 //@   ensures [C11 C12] loaded-only: jarr_kind(bytes, keyof(set.items)) == 3 ==> (forall x like keyof(set.items) :: Mem(set, x) ==> (exists j :: 0 <= j && j < jarr_len(bytes, keyof(set.items)) && jarr_at(bytes, j, keyof(set.items)) == x))
 //@   ensures [C11 C12] loaded-all: jarr_kind(bytes, keyof(set.items)) == 3 ==> (forall j :: 0 <= j && j < jarr_len(bytes, keyof(set.items)) ==> Mem(set, jarr_at(bytes, j, keyof(set.items))))
 //@   ensures [C12] null: jarr_kind(bytes, keyof(set.items)) == 2 ==> Card(set) == 0
+
+//@ -- String: starts with the container's name; reads only (C15, C18)
+//@ func Set.String
+//@   requires Inv(set)
+//@   modifies nothing
+//@   ensures [C15 C17 C18] hasPrefix(result, "HashSet")
+//@   loop 1:
+//@     invariant 0 <= nvisited1 && nvisited1 <= Card(set)
+//@     invariant isnil(items) || fresh(arr(items))
+//@     decreases Card(set) - nvisited1
